@@ -481,8 +481,12 @@ class ExprMixin:
             o, x = (l, r) if isinstance(l, Opt) else (r, l)
             if x is None:
                 return z3.Not(o.has)
+            if o.kind == "pair":
+                raise OutsideSubset("comparison of Version.pre with a value other than None")
             if isinstance(x, str):
                 x = z3.StringVal(x)
+            if o.kind == "int" and isinstance(x, int) and not isinstance(x, bool):
+                x = z3.IntVal(x)
             if z3.is_expr(x):
                 return z3.And(o.has, o.val == x)
             return False
